@@ -192,7 +192,7 @@ def gen_case(rng, tier):
         else:  # prod
             if not sim.blocked(s, 0) and len(sim.queue) < max(cap, 1):
                 m = s * 1000 + x["seq"]; x["seq"] += 1
-                ops.append(["p", s, m]); sim.queue.append((s, 0, [m]))
+                ops.append(["p", s, m]); sim.queue.append((s, 0, [m])); sync()
         sim.settle()
 
     def receiver_step():
@@ -201,7 +201,7 @@ def gen_case(rng, tier):
         if c < 0.55:
             ops.append(["r"]); recv_open = True
             m = sim.read()
-            if m is not None and kind != "chan":
+            if m is not None:
                 sync()
             if m is None and not custom:
                 ops.append(["ra"]); sim.backlog = sim.inprog + sim.backlog; sim.inprog = []; recv_open = False
@@ -240,8 +240,7 @@ def gen_case(rng, tier):
             break
         sim.read()
         ops.append(["r"])
-        if kind != "chan":
-            sync()
+        sync()
         sim.settle()
     ops.append(["rc"]); sim.inprog = []
     # nothing more may come: one more read must time out (tick for CustomInChan)
